@@ -2,15 +2,16 @@
   Lemmas/SkipTplBufiox: SkipDecoder over a bufiox.Reader (`bufioxBackend`, `bufioxDecNext`).
 
   The back end accumulates the value with `Peek(rn + n)` and finally consumes it with `Next(rn)`.
-  Over ANY reader that satisfies the exact contract `RdC P True bnd` (Lemmas/SkipBR.lean) the back end
-  is a cursor over `remaining.drop rn` for all requests `k` with `|remaining| + k ≤ bnd`
-  (`bufiox_cursor`), hence (Lemmas/SkipTplB.lean) SkipDecoderTpl.Skip agrees exactly with refTpl, the
-  returned bytes are exactly the value, the reader afterwards owes exactly the rest and
-  ReadLen += |value| (`bufioxDecNext_gen`).  Instances:
+  Over ANY reader that satisfies the contract `RdC P live bnd` (Lemmas/SkipBR.lean) the back end
+  is a (weak) cursor over `remaining.drop rn` for all requests `k` with `|remaining| + k ≤ bnd`
+  (`bufiox_cursor`), hence (Lemmas/SkipTplW.lean) SkipDecoderTpl.Skip is sound w.r.t. refTpl over any
+  source and agrees exactly with it over live sources; the returned bytes are exactly the value,
+  the reader afterwards owes exactly the rest and ReadLen += |value| (`bufioxDecNext_w`).  Instances:
+    * C04's reader over ANY source: soundness, totality (`bufioxDecNext_any`);
     * C04's reader over a live source, sizes ≤ 2^60 (`bufioxDecNext_exact`);
     * fully buffered readers, no size hypothesis (`bufioxDecNext_dry`).
 -/
-import Verif.Lemmas.SkipTplB
+import Verif.Lemmas.SkipTplW
 import Verif.Lemmas.SkipBRInst
 import Verif.Lemmas.SkipBRBytes
 namespace Verif
@@ -24,77 +25,79 @@ def bufioxRem (s : BufioxDec) : Bytes := s.r.remaining.drop s.rn
 def BufioxP (P : Rd → Prop) (R0 : Bytes) (ri0 : Nat) (s : BufioxDec) : Prop :=
   P s.r ∧ s.r.remaining = R0 ∧ s.r.ri = ri0 ∧ s.rn ≤ R0.length
 
-theorem bufiox_cursor {P : Rd → Prop} {bnd : Nat} (hC : RdC P True bnd) (R0 : Bytes) (ri0 cb : Nat)
-    (hsz : R0.length + cb ≤ bnd) :
-    CursorB bufioxBackend bufioxRem (BufioxP P R0 ri0) cb := by
-  refine ⟨?_, ?_, ?_⟩
-  · intro s k hp hk hkb
+theorem bufiox_cursor {P : Rd → Prop} {live : Prop} {bnd : Nat} (hC : RdC P live bnd) (R0 : Bytes)
+    (ri0 cb : Nat) (hsz : R0.length + cb ≤ bnd) :
+    WCursor bufioxBackend bufioxRem (BufioxP P R0 ri0) live cb := by
+  refine ⟨?_, ?_⟩
+  · intro s k hp hkb
     obtain ⟨hpr, hR, hri, hrn⟩ := hp
-    simp only [bufioxRem, hR, List.length_drop] at hk
     have hn : ((s.rn + k : Nat) : Int).toNat = s.rn + k := Int.toNat_natCast _
     rcases hC.peek s.r ((s.rn + k : Nat) : Int) hpr (Int.natCast_nonneg _)
         (by rw [hn]; omega) with
       ⟨r', hx, h1, hrem, hri', hp'⟩ | ⟨e, r', hx, hl⟩
-    · rw [hn, hR] at hx h1
-      refine ⟨{ r := r', rn := s.rn + k }, ?_, ?_, ⟨hp', by rw [hrem, hR], by rw [hri', hri], by omega⟩⟩
+    · left
+      rw [hn, hR] at hx h1
+      refine ⟨{ r := r', rn := s.rn + k }, ?_, ?_, ?_, ⟨hp', by rw [hrem, hR], by rw [hri', hri], by omega⟩⟩
       · have hlen : (List.take (s.rn + k) R0).length = s.rn + k := by
           rw [List.length_take]; omega
         have hd : List.drop s.rn (List.take (s.rn + k) R0) = List.take k (List.drop s.rn R0) := by
           rw [List.drop_take]; congr 1; omega
         simp only [bufioxBackend, hx, hlen, bufioxRem, hR, hd]
         rw [if_neg (by omega)]
+      · simp only [bufioxRem, hR, List.length_drop]; omega
       · simp only [bufioxRem, hrem, hR, List.drop_drop]
-    · have := hl trivial
-      rw [hn, hR] at this; omega
-  · intro s k hp hk hkb
-    obtain ⟨hpr, hR, hri, hrn⟩ := hp
-    simp only [bufioxRem, hR, List.length_drop] at hk
-    have hn : ((s.rn + k : Nat) : Int).toNat = s.rn + k := Int.toNat_natCast _
-    rcases hC.peek s.r ((s.rn + k : Nat) : Int) hpr (Int.natCast_nonneg _)
-        (by rw [hn]; omega) with
-      ⟨r', hx, h1, hrem, hri', hp'⟩ | ⟨e, r', hx, hl⟩
-    · rw [hn, hR] at h1; omega
-    · exact ⟨.raw e, by simp only [bufioxBackend, hx]⟩
+    · right
+      refine ⟨.raw e, by simp only [bufioxBackend, hx], fun l => ?_⟩
+      have := hl l
+      rw [hn, hR] at this
+      simp only [bufioxRem, hR, List.length_drop]; omega
   · intro s hp
     simp only [bufioxBackend, bufioxRem, Rd.avail_eq, List.length_drop]; omega
 
-/-- SkipDecoder.Next(t) over any reader satisfying the exact contract (requests up to
-    `2·|remaining| + 2^35` covered): exactly refTpl 64 on what the reader still owes; the value's
-    bytes are returned, exactly they are consumed -/
+/-- SkipDecoder.Next(t) over any reader satisfying the contract (requests up to
+    `2·|remaining| + 2^35` covered).  Over any source: an error, or refTpl 64 accepts a prefix of what
+    the reader owes, exactly that prefix is returned and consumed, ReadLen += its length.  Over a
+    live source an error only if refTpl 64 rejects. -/
+theorem bufioxDecNext_w {P : Rd → Prop} {live : Prop} {bnd : Nat} (hC : RdC P live bnd) (r : Rd) (t : UInt8)
+    (hp : P r) (hsz : r.remaining.length + (r.remaining.length + tplReq) ≤ bnd) :
+    (∃ e, bufioxDecNext r t = .err e ∧ (live → refTpl Facts.defaultRecursionDepth t r.remaining = none)) ∨
+    (∃ k r', refTpl Facts.defaultRecursionDepth t r.remaining = some k ∧
+      bufioxDecNext r t = .ok (r.remaining.take k, r') ∧
+      r'.remaining = r.remaining.drop k ∧ r'.readLen = r.readLen + k ∧ P r') := by
+  have hp0 : BufioxP P r.remaining r.ri { r := r, rn := 0 } := ⟨hp, rfl, rfl, Nat.zero_le _⟩
+  have hm := skipTplAtW (bufiox_cursor hC r.remaining r.ri (r.remaining.length + tplReq) hsz)
+    (by omega) Facts.defaultRecursionDepth t { r := r, rn := 0 } hp0
+  have hrem0 : bufioxRem { r := r, rn := 0 } = r.remaining := by simp [bufioxRem]
+  rw [hrem0] at hm
+  rcases hm with ⟨e, hx, hnone⟩ | ⟨k, s1, hr, hx, hrem, hpr, hR, hri, hrn⟩
+  · left; exact ⟨e, by simp [bufioxDecNext, hx], hnone⟩
+  · have hk := (refTpl_good _ t _ k hr).2
+    have hlen1 := congrArg List.length hrem
+    simp only [bufioxRem, hR, List.length_drop] at hlen1
+    have hrn1 : s1.rn = k := by omega
+    rcases hC.next s1.r (k : Int) hpr (Int.natCast_nonneg _)
+        (by rw [Int.toNat_natCast]; omega) with ⟨r', hy, h1, hrem', hri', hp'⟩ | ⟨e, r', hy, hlv⟩
+    · right
+      rw [Int.toNat_natCast, hR] at hy hrem'
+      rw [Int.toNat_natCast, hri] at hri'
+      refine ⟨k, r', hr, ?_, hrem', hri', hp'⟩
+      simp only [bufioxDecNext, hx, Out.bind_eq, Out.bind_ok, hrn1, hy, Out.pure_eq]
+    · left
+      refine ⟨.raw e, ?_, fun l => ?_⟩
+      · simp only [bufioxDecNext, hx, Out.bind_eq, Out.bind_ok, hrn1, hy]
+      · have := hlv l
+        rw [Int.toNat_natCast, hR] at this; omega
+
+/-- the exact form over an exact contract -/
 theorem bufioxDecNext_gen {P : Rd → Prop} {bnd : Nat} (hC : RdC P True bnd) (r : Rd) (t : UInt8)
     (hp : P r) (hsz : r.remaining.length + (r.remaining.length + tplReq) ≤ bnd) :
     match refTpl Facts.defaultRecursionDepth t r.remaining with
     | some k => ∃ r', bufioxDecNext r t = .ok (r.remaining.take k, r') ∧
         r'.remaining = r.remaining.drop k ∧ r'.readLen = r.readLen + k ∧ P r'
     | none => ∃ e, bufioxDecNext r t = .err e := by
-  have hp0 : BufioxP P r.remaining r.ri { r := r, rn := 0 } := ⟨hp, rfl, rfl, Nat.zero_le _⟩
-  have hlen : ∀ s, BufioxP P r.remaining r.ri s → (bufioxRem s).length ≤ r.remaining.length + tplReq := by
-    intro s hps
-    simp only [bufioxRem, hps.2.1, List.length_drop]; omega
-  have hm := skipTplAt_tmB (bufiox_cursor hC r.remaining r.ri (r.remaining.length + tplReq) hsz) hlen
-    (by omega) Facts.defaultRecursionDepth t { r := r, rn := 0 } hp0
-  unfold TM at hm
-  have hrem0 : bufioxRem { r := r, rn := 0 } = r.remaining := by simp [bufioxRem]
-  rw [hrem0] at hm
-  cases hr : refTpl Facts.defaultRecursionDepth t r.remaining with
-  | none =>
-    rw [hr] at hm; obtain ⟨e, he⟩ := hm
-    exact ⟨e, by simp [bufioxDecNext, he]⟩
-  | some k =>
-    rw [hr] at hm
-    obtain ⟨s1, hx, hrem, hpr, hR, hri, hrn⟩ := hm
-    have hk := (refTpl_good _ t _ k hr).2
-    have hlen1 := congrArg List.length hrem
-    simp only [bufioxRem, hR, List.length_drop] at hlen1
-    have hrn1 : s1.rn = k := by omega
-    rcases hC.next s1.r (k : Int) hpr (Int.natCast_nonneg _)
-        (by rw [Int.toNat_natCast]; omega) with ⟨r', hy, h1, hrem', hri', hp'⟩ | ⟨e, r', hy, hlv⟩
-    · rw [Int.toNat_natCast, hR] at hy hrem'
-      rw [Int.toNat_natCast, hri] at hri'
-      refine ⟨r', ?_, hrem', hri', hp'⟩
-      simp only [bufioxDecNext, hx, Out.bind_eq, Out.bind_ok, hrn1, hy, Out.pure_eq]
-    · have := hlv trivial
-      rw [Int.toNat_natCast, hR] at this; omega
+  rcases bufioxDecNext_w hC r t hp hsz with ⟨e, hx, hnone⟩ | ⟨k, r', hr, hx, h1, h2, h3⟩
+  · rw [hnone trivial]; exact ⟨e, hx⟩
+  · rw [hr]; exact ⟨r', hx, h1, h2, h3⟩
 
 /-- … over C04's reader with a live source -/
 theorem bufioxDecNext_exact (r : Rd) (t : UInt8) (h : RdOK r) (hl : r.Live) :
@@ -111,6 +114,18 @@ theorem bufioxDecNext_exact (r : Rd) (t : UInt8) (h : RdOK r) (hl : r.Live) :
     rw [hr] at hm
     obtain ⟨r', h1, h2, h3, h4⟩ := hm
     exact ⟨r', h1, h2, h3, h4.1, h4.2 trivial⟩
+
+/-- … over C04's reader with ANY source: sound and total -/
+theorem bufioxDecNext_any (r : Rd) (t : UInt8) (h : RdOK r) :
+    (∃ e, bufioxDecNext r t = .err e) ∨
+    (∃ k r', refTpl Facts.defaultRecursionDepth t r.remaining = some k ∧
+      bufioxDecNext r t = .ok (r.remaining.take k, r') ∧
+      r'.remaining = r.remaining.drop k ∧ r'.readLen = r.readLen + k ∧ RdOK r') := by
+  have hsz : r.remaining.length + (r.remaining.length + tplReq) ≤ bigReq := by
+    have := h.2; unfold sizeBound at this; unfold tplReq bigReq; omega
+  rcases bufioxDecNext_w (rdc_inst False) r t ⟨h, fun f => f.elim⟩ hsz with ⟨e, hx, _⟩ | ⟨k, r', hr, hx, h1, h2, h3⟩
+  · exact Or.inl ⟨e, hx⟩
+  · exact Or.inr ⟨k, r', hr, hx, h1, h2, h3.1⟩
 
 /-- … over a fully buffered reader: every buffer content, every capacity, every type byte -/
 theorem bufioxDecNext_dry (r : Rd) (t : UInt8) (h : RdDry r) :
